@@ -220,9 +220,36 @@ def rexpr(e):
     if k == "new":
         parts = ["%s gleich %s" % (a["p"], rarg(a["e"])) for a in e["args"]]
         return "(ein %s mit %s)" % (e["s"], " und ".join(parts)) if parts else "(ein leerer %s)" % e["s"]
-    if k == "chain":   # precedence cases: operands and operator words, rendered WITHOUT parentheses
-        return " ".join(x if isinstance(x, str) else rexpr(x) for x in e["items"])
+    if k == "chain":   # precedence cases: operands and operator names, rendered WITHOUT parentheses
+        return rchain(e["items"])
     raise ValueError(k)
+
+
+CHAIN_PREC = {"or": 2, "and": 3, "bor": 4, "bxor": 5, "band": 6, "eq": 7, "ne": 7, "lt": 8, "le": 8, "gt": 8, "ge": 8, "plus": 10, "minus": 10, "cat": 10, "mal": 11, "durch": 11, "mod": 11}
+CHAIN_WORD = {"or": "oder", "and": "und", "bor": "logisch oder", "bxor": "logisch kontra", "band": "logisch und", "eq": "gleich", "ne": "ungleich", "lt": "kleiner als", "le": "kleiner als, oder",
+              "gt": "größer als", "ge": "größer als, oder", "plus": "plus", "minus": "minus", "cat": "verkettet mit", "mal": "mal", "durch": "durch", "mod": "modulo", "not": "nicht", "neg": "-"}
+
+
+def rchain(items):
+    """flat rendering of an operator chain: no parentheses; the closing 'ist' of a comparison stands where its right operand ends,
+    i.e. before the next operator that does not bind tighter than the comparison"""
+    out, pending = [], []          # pending: precedences of comparisons whose 'ist' is still to be written
+    for x in items:
+        x = x["o"] if isinstance(x, dict) and "o" in x else x
+        if isinstance(x, str) and x in CHAIN_PREC:
+            while pending and CHAIN_PREC[x] <= pending[-1]:
+                out.append("ist")
+                pending.pop()
+            out.append(CHAIN_WORD[x])
+            if x in ("eq", "ne", "lt", "le", "gt", "ge"):
+                pending.append(CHAIN_PREC[x])
+        elif isinstance(x, str):
+            out.append(CHAIN_WORD[x])
+        else:
+            out.append(rexpr(x))
+    out += ["ist"] * len(pending)
+    s = " ".join(out).replace("- ", "-")
+    return "(" + s + ")"
 
 
 def rarg(e):
